@@ -83,7 +83,7 @@ where
                 add_charges(&mut txn, config, &entry.charges)?;
                 res.push(txn);
             }
-            for transaction in &entry.details.transactions {
+            for (idx, transaction) in entry.details.transactions.iter().enumerate() {
                 let amount = transaction
                     .amount
                     .to_data(transaction.credit_or_debit.value);
@@ -126,7 +126,10 @@ where
                         );
                     }
                 }
-                add_charges(&mut txn, config, &entry.charges)?;
+                // Entry level charges are recorded once, not once per batched transaction.
+                if idx == 0 {
+                    add_charges(&mut txn, config, &entry.charges)?;
+                }
                 add_charges(&mut txn, config, &transaction.charges)?;
                 res.push(txn);
             }
